@@ -136,6 +136,7 @@ def unit_scaling_backend(
 
         # Go through and mark nodes which represent residual-adds
         residual_layer_number = 1
+        regular_adds = []
         for node in graph.nodes:
             if _is_add(node):
                 is_residual_add = False
@@ -153,15 +154,20 @@ def unit_scaling_backend(
                             skip_node, residual_node = (l, r) if l in r_deps else (r, l)
                             is_sa = _is_self_attention(skip_node, residual_node)
                             node.meta["residual_add"]["is_self_attention"] = is_sa
-                # Regular adds are not picked up by the unit scaling sweep above as
-                # the inbuilt + operation is handled differently when traced. It is
-                # instead substituted for its unit scaled equivalent here.
                 if not is_residual_add:
-                    logger.info("unit scaling function: %s", node)
-                    # constraint=None denotes unconstrained (passed by keyword, as
-                    # `_unconstrain_node()` below may set the same keyword again)
-                    kwargs = dict(node.kwargs, constraint=None)
-                    replace_node_with_function(graph, node, U.add, kwargs=kwargs)
+                    regular_adds.append(node)
+
+        # Regular adds are not picked up by the unit scaling sweep above as
+        # the inbuilt + operation is handled differently when traced. It is
+        # instead substituted for its unit scaled equivalent here. (This is done once
+        # all residual-adds have been identified, as the new nodes carry no dependency
+        # metadata: a residual-add fed by a regular add would otherwise be missed.)
+        for node in regular_adds:
+            logger.info("unit scaling function: %s", node)
+            # constraint=None denotes unconstrained (passed by keyword, as
+            # `_unconstrain_node()` below may set the same keyword again)
+            kwargs = dict(node.kwargs, constraint=None)
+            replace_node_with_function(graph, node, U.add, kwargs=kwargs)
 
         # Replace nodes marked as residual-adds with unit scaled equivalent
         for node in graph.nodes:
